@@ -27,9 +27,10 @@ Proof. exact per_recipient_share_le_one. Qed.
 Print Assumptions C18_payout_at_most_fee_plus_half_unit_each.
 
 (** The whole property for one transaction, for EVERY state and transaction: whatever the
-    registry, contract infos, balances, fee coins, messages — if the fee collector is a blocked
-    address, DeveloperShares ∈ [0,1], AllowedDenoms has no repeated entry and fee amounts are
-    non-negative, the model's transition satisfies [P_tx] (Spec.v): payouts only to the registered
+    registry, contract infos, balances, fee coins, messages, AllowedDenoms list (repeats included)
+    — if the fee collector is a blocked address, getAllowedFees counts a coin once (generated
+    fact), DeveloperShares ∈ [0,1] and fee amounts are non-negative, the model's transition
+    satisfies [P_tx] (Spec.v): payouts only to the registered
     withdrawers of top-level executes, equal split, total ≤ share × allowed fee + n, nothing in
     other denoms, nothing when disabled / nobody registered, collector delta = fee − payouts,
     rejected txs change nothing, and registry changes only by the admin (creator when there is no
@@ -85,8 +86,8 @@ Theorem C18_collector_delta_is_fee_minus_payouts :
   forall E p R b t b' d, t_signer t <> e_collector E -> ante E p R b t = Some b' ->
   let rc := eff_recipients p (reg_lookup R) (t_msgs t) in
   b' (e_collector E) d - b (e_collector E) d
-  = amount_of (t_fee t) d - Z.of_nat (length rc) * q_model p t (length rc) d
-    + Z.of_nat (count (e_collector E) rc) * q_model p t (length rc) d.
+  = amount_of (t_fee t) d - Z.of_nat (length rc) * q_model E p t (length rc) d
+    + Z.of_nat (count (e_collector E) rc) * q_model E p t (length rc) d.
 Proof. exact collector_delta. Qed.
 Print Assumptions C18_collector_delta_is_fee_minus_payouts.
 
@@ -113,13 +114,22 @@ Theorem C18_checker_sound :
 Proof. exact Pb_tx_sound. Qed.
 Print Assumptions C18_checker_sound.
 
-(** Why "AllowedDenoms has no repeated entry" is a hypothesis: Params.Validate accepts repeats,
-    getAllowedFees then adds the fee coin once per repeat, and the bound fails (share 1, fee 100,
-    AllowedDenoms = [d; d], one recipient: 200 is paid out). *)
-Theorem C18_duplicate_allowed_denoms_refuted :
-  0 <= p_share dup_params <= PREC /\
-  q_model dup_params dup_tx 1 0%nat = 200 /\
-  ~ (PREC * (1 * q_model dup_params dup_tx 1 0%nat)
-     <= p_share dup_params * allowed_amount dup_params (t_fee dup_tx) 0%nat + 1 * PREC).
-Proof. exact duplicate_allowed_denoms_refuted. Qed.
-Print Assumptions C18_duplicate_allowed_denoms_refuted.
+(** Tight form for the model's per-recipient amount: total paid in a denom ≤ share × allowed fee + n/2. *)
+Theorem C18_total_payout_tight :
+  forall E p t n d, e_allowed_once E = true -> params_ok p -> fee_ok (t_fee t) ->
+  2 * PREC * (Z.of_nat n * q_model E p t n d) <= 2 * p_share p * allowed_amount p (t_fee t) d + Z.of_nat n * PREC /\
+  2 * (Z.of_nat n * q_model E p t n d) <= 2 * allowed_amount p (t_fee t) d + Z.of_nat n.
+Proof. exact total_payout_tight. Qed.
+Print Assumptions C18_total_payout_tight.
+
+(** The variant of getAllowedFees before the fix: commit (a fee coin added once per matching
+    AllowedDenoms entry; Params.Validate accepts repeated entries) violates the bound: share 1,
+    fee 100, AllowedDenoms = [d; d], one recipient: 200 is paid out; the current code pays 100. *)
+Theorem C18_duplicate_allowed_denoms_refuted_before_fix :
+  params_ok dup_params /\ fee_ok (t_fee dup_tx) /\
+  q_model env_before_fix dup_params dup_tx 1 0%nat = 200 /\
+  ~ (PREC * (1 * q_model env_before_fix dup_params dup_tx 1 0%nat)
+     <= p_share dup_params * allowed_amount dup_params (t_fee dup_tx) 0%nat + 1 * PREC) /\
+  q_model env_current dup_params dup_tx 1 0%nat = 100.
+Proof. exact duplicate_allowed_denoms_refuted_before_fix. Qed.
+Print Assumptions C18_duplicate_allowed_denoms_refuted_before_fix.
